@@ -200,7 +200,9 @@ RegVerdict(e) ==
        wf == {x \in Pix(e) : ~WellFormedFlag(e.vm1[x[1]][x[2]])}
        badbits == {x \in Pix(e) \ wf : ~(b0(x) \subseteq b1(x) /\ (b1(x) \ b0(x)) \subseteq {11})}
        notreg == {x \in Pix(e) \ wf : e.strict /\ 11 \notin b1(x) /\ ~(e.inf1[x[1]][x[2]] = e.inf0[x[1]][x[2]] /\ e.sup1[x[1]][x[2]] = e.sup0[x[1]][x[2]])}
-       widen == {x \in Pix(e) : e.inf0[x[1]][x[2]] # NaN /\ e.sup0[x[1]][x[2]] # NaN
+       \* (not demanded after REPEATED regularisation: a regularisation also gives bounds to pixels that had none - invalid ones -, so the
+       \* second median sees more neighbours than in the run without regularisation and may move either way; e.check_widen = FALSE there)
+       widen == {x \in Pix(e) : ("check_widen" \notin DOMAIN e \/ e.check_widen) /\ e.inf0[x[1]][x[2]] # NaN /\ e.sup0[x[1]][x[2]] # NaN
                                  /\ ~(e.inf1[x[1]][x[2]] # NaN /\ e.sup1[x[1]][x[2]] # NaN
                                       /\ e.inf1[x[1]][x[2]] <= e.inf0[x[1]][x[2]] /\ e.sup1[x[1]][x[2]] >= e.sup0[x[1]][x[2]])}
        one(S) == IF S = {} THEN <<>> ELSE LET x == CHOOSE y \in S : TRUE
